@@ -1289,6 +1289,23 @@ def run_sem(chk, replay=None):
     variables and constants inside 如果 / 每当 / 遍历 blocks, assignment to 恒为 names, parameters, 得到 results and definitions."""
     extra = []
     if replay is None:
+        # a name declared in an inner block or a method body under the name of a method of the module is what a call finds there
+        from vlib.semgen import Func, Return, Num, Branch, Logic, Decl, Display, Var, Call, Str, While, ExprS, AssignVar, Arith
+        fa = Func("Fa", [], [Return(Num(1))], [])
+        fb = Func("Fb", [], [Return(Num(2))], [])
+        extra += [
+            (([], [fa, fb, Branch(Logic("eq", Num(1), Num(1)), [Decl([(False, ["Fa"], Num(5))]), Display(Var("Fa")), Display(Call("Fa", []))]),
+                   Display(Str("unreachable"))], []), None, "method-name-shadow"),
+            (([], [fa, fb, Branch(Logic("eq", Num(1), Num(1)), [Decl([(False, ["Fa"], Num(5))]), Display(Var("Fa"))]), Display(Call("Fa", [])),
+                   Return(Call("Fb", []))], []), None, "method-name-shadow"),
+            (([], [fa, Func("G", [], [Func("Fa", [], [Return(Num(9))], []), Return(Call("Fa", []))], []), Display(Call("G", [])), Display(Call("Fa", [])),
+                   Return(Num(0))], []), None, "method-name-shadow"),
+            (([], [fa, fb, Func("H", ["Fa"], [Return(Call("Fa", []))], []), Display(Call("H", [Var("Fb")])), Display(Call("Fa", [])), Return(Num(0))], []),
+             None, "method-name-shadow"),
+            (([], [fa, fb, Decl([(False, ["I"], Num(0))]),
+                   While(Logic("lt", Var("I"), Num(2)), [ExprS(AssignVar("I", Arith("+", Var("I"), Num(1)))), Decl([(False, ["Fb"], Var("I"))]), Display(Var("Fb"))]),
+                   Display(Call("Fb", [])), Return(Num(0))], []), None, "method-name-shadow"),
+        ]
         # the names a handler sees are those of the body it belongs to — its inputs, 此, the methods of its module — wherever
         # the exception came from (a built-in method, a callee at any depth, a constructor)
         from props import c09
